@@ -898,6 +898,7 @@ func (te *TemplateEngine) cloneDocument(source *Document) *Document {
 
 	// 复制图片ID计数器
 	doc.nextImageID = source.nextImageID
+	doc.stylesRelID = source.stylesRelID
 
 	// 复制脚注/编号管理器，使渲染结果中继续添加脚注或列表时不会丢失模板已有的定义
 	if m := source.footnoteManager; m != nil {
